@@ -362,7 +362,8 @@ func (w *World) apply(op Op, token string) bool {
 		default:
 			return false // redefining an inherited function is left open
 		}
-	case "makunbound", "fmakunbound":
+	case "makunbound", "fmakunbound", "unintern":
+		// (unintern 'x) is documented as "unbinds the symbol in the package": the variable, like makunbound
 		if IsFn(op.N) != (op.K == "fmakunbound") {
 			return false
 		}
